@@ -17,6 +17,102 @@ def norm(s):
     return re.sub(r'\s+', ' ', s).strip()
 
 
+# ---------------------------------------------------------------------------------------------------------------
+# translator for integer expressions of C (int64_t arithmetic) into Gallina over Z: every operation that can wrap is
+# put under `w` (= wrap64); `/` is Z.quot, `%` is Z.rem (C truncating division).  Names: r->start, r->stop, r->step,
+# Range_Len(r) (= n) and the locals bound so far.
+class CExprError(Exception):
+    pass
+
+
+def _tokens(text):
+    toks = re.findall(r'r->\w+|Range_Len\(r\)|\(\s*(?:int64_t|size_t|uint64_t)\s*\)|[A-Za-z_]\w*|\d+|[-+*/%()]', text)
+    if ''.join(toks).replace(' ', '') != re.sub(r'\s+', '', text):
+        raise CExprError('untranslatable text: ' + text)
+    return [t for t in toks if not re.match(r'\(\s*(?:int64_t|size_t|uint64_t)\s*\)$', t)]      # casts between 64-bit types: identity on the box
+
+
+def cexpr(text, env):
+    toks = _tokens(text)
+    pos = [0]
+
+    def peek():
+        return toks[pos[0]] if pos[0] < len(toks) else None
+
+    def take():
+        t = peek(); pos[0] += 1
+        return t
+
+    def atom():
+        t = take()
+        if t is None:
+            raise CExprError('unexpected end')
+        if t == '(':
+            e = add()
+            if take() != ')':
+                raise CExprError('missing )')
+            return e
+        if t == '-':
+            return '(w (- %s))' % atom()
+        if t == '+':
+            return atom()
+        if re.match(r'\d+$', t):
+            return t
+        if t in env:
+            return env[t]
+        raise CExprError('unknown name ' + t)
+
+    def mul():
+        e = atom()
+        while peek() in ('*', '/', '%'):
+            op = take(); f = atom()
+            e = {'*': '(w (%s * %s))', '/': '(w (Z.quot %s %s))', '%': '(Z.rem %s %s)'}[op] % (e, f)
+        return e
+
+    def add():
+        e = mul()
+        while peek() in ('+', '-'):
+            op = take(); f = mul()
+            e = '(w (%s %s %s))' % (e, op, f)
+        return e
+
+    e = add()
+    if peek() is not None:
+        raise CExprError('trailing ' + str(peek()))
+    return e
+
+
+def translate_range_last(b):
+    """Range_Iter_Last in the repaired structure: locals, the guard `len == 0 -> Terminal`, one assignment to i->val per
+    sign of step, return i.  -> (gallina for step > 0, gallina for step < 0) or None"""
+    t = norm(b)
+    m = re.match(r'\{ struct Range\* r = self; struct Int\* i = r->value; (.*) return i; \}$', t)
+    if not m:
+        return None
+    rest = m.group(1)
+    env = {'r->start': 'start', 'r->stop': 'stop', 'r->step': 'step', 'Range_Len(r)': 'n'}
+    guard = False; posx = negx = None
+    try:
+        while rest:
+            mm = re.match(r'int64_t (\w+) = ([^;{}]+); ?', rest)
+            if mm and not posx and not negx:
+                env[mm.group(1)] = cexpr(mm.group(2), env); rest = rest[mm.end():]; continue
+            mm = re.match(r'if \((\w+|Range_Len\(r\)) == 0\) \{ return Terminal; \} ?', rest)
+            if mm and env.get(mm.group(1)) == 'n':
+                guard = True; rest = rest[mm.end():]; continue
+            mm = re.match(r'if \(r->step ([<>]) 0\) \{ i->val = ([^;{}]+); \} ?', rest)
+            if mm and guard:
+                e = cexpr(mm.group(2), env)
+                if mm.group(1) == '>' and posx is None: posx = e
+                elif mm.group(1) == '<' and negx is None: negx = e
+                else: return None
+                rest = rest[mm.end():]; continue
+            return None
+    except CExprError:
+        return None
+    return (posx, negx) if guard and posx and negx else None
+
+
 def generate(repo, emit, src, func_body):
     it, arr, tup, tab, tree = (src('src/' + f) for f in ('Iter.c', 'Array.c', 'Tuple.c', 'Table.c', 'Tree.c'))
 
@@ -54,11 +150,19 @@ def generate(repo, emit, src, func_body):
         emit('iter_range_len_guard', 'Definition iter_range_len_guard : bool := false.   (* Range_Len: pre-repair text *)')
     else:
         emit('iter_range_len_guard', None)
-    flag('iter_range_last_aligned', body(it, 'Range_Iter_Last'),
-         [r'int64_t\s+n\s*=\s*Range_Len\(r\)', r'if\s*\(n\s*==\s*0\)\s*\{\s*return\s+Terminal',
-          r'i->val\s*=\s*r->start\s*\+\s*r->step\s*\*\s*\(n-1\)', r'i->val\s*=\s*r->stop-1\s*\+\s*r->step\s*\*\s*\(n-1\)'],
-         [r'if\s*\(r->step\s*>\s*0\)\s*\{\s*i->val\s*=\s*r->stop-1;', r'if\s*\(r->step\s*<\s*0\)\s*\{\s*i->val\s*=\s*r->start;'],
-         'Range_Iter_Last')
+    # Range_Iter_Last: TRANSLATED, not matched: the two expressions assigned to i->val become Gallina functions and
+    # IterProofs.source_range_last_ok proves that on the box they are first + step*(len-1)
+    b = body(it, 'Range_Iter_Last')
+    tr = translate_range_last(b) if b else None
+    defs = lambda p, n: ('Definition iter_range_last_pos (w : Z -> Z) (start stop step n : Z) : Z := (%s)%%Z.\n'
+                         'Definition iter_range_last_neg (w : Z -> Z) (start stop step n : Z) : Z := (%s)%%Z.' % (p, n))
+    if tr:
+        emit('iter_range_last_aligned', 'Definition iter_range_last_aligned : bool := true.   (* Range_Iter_Last: guard on len, then the translated expressions *)\n' + defs(*tr))
+    elif b and re.search(r'if\s*\(r->step\s*>\s*0\)\s*\{\s*i->val\s*=\s*r->stop-1;', b) and re.search(r'if\s*\(r->step\s*<\s*0\)\s*\{\s*i->val\s*=\s*r->start;', b) \
+            and 'Range_Len' not in b:
+        emit('iter_range_last_aligned', 'Definition iter_range_last_aligned : bool := false.   (* Range_Iter_Last: pre-repair text *)\n' + defs('0', '0'))
+    else:
+        emit('iter_range_last_aligned', None)
     flag('iter_range_get_checked', body(it, 'Range_Get'),
          [r'int64_t\s+n\s*=\s*Range_Len\(r\)', r'i\s*=\s*i\s*<\s*0\s*\?\s*n\+i\s*:\s*i',
           r'r->step\s*>\s*0\s+and\s+i\s*>=\s*0\s+and\s+i\s*<\s*n', r'r->step\s*<\s*0\s+and\s+i\s*>=\s*0\s+and\s+i\s*<\s*n'],
